@@ -457,7 +457,7 @@ theorem ref_cmd (fuel : Nat) (ih : Ref fuel) :
   | setE on => simp only [execCmd, specCmd]; exact relS_finish' _ st0 _ _ rfl
   | setM on => simp only [execCmd, specCmd]; exact relS_finish' _ st0 _ _ rfl
   | unknown => simp only [execCmd, specCmd]; exact relS_finish' _ st0 _ _ rfl
-  | absent w a => simp only [execCmd, specCmd]; exact relS_finish' _ st0 _ _ rfl
+  | absent w r a => simp only [execCmd, specCmd]; exact relS_finish' _ st0 _ _ rfl
   | tick c k =>
     simp only [execCmd, specCmd]
     split <;> exact relS_finish' _ st0 _ _ rfl
